@@ -91,7 +91,10 @@ class C20(Check):
                         yield {'out': list(combo), 'order': list(perm), 'only': only,
                                'kinds': [KINDS[(i + oi + sum(combo)) % len(KINDS)] for i in range(n)]}
         rng = random.Random(seed * 7 + 1)
-        for _ in range(25000 if tier == 'quick' else 500000):
+        nrand = 25000 if tier == 'quick' else 500000
+        nbig = 60 if tier == 'quick' else 1500
+        every = nrand // nbig
+        for j in range(nrand):
             n = rng.choice([4, 5, 5])
             perm = list(range(n))
             rng.shuffle(perm)
@@ -106,16 +109,17 @@ class C20(Check):
                    'factory': rng.choice(['default', 'default', 'eager', 'custom']),
                    'instant': [i for i in range(n) if rng.random() < rng.choice([0, 0, 0.3, 0.7])],
                    'caller': rng.choice(['plain', 'plain', 'cancelled_before', 'uncancelled_before', 'in_timeout', 'in_taskgroup'])}
-        # many awaitables at once, on two event loops one after the other in the same process
-        for _ in range(60 if tier == 'quick' else 1500):
-            n = rng.choice([65, 70, 100, 130, 200])
-            perm = list(range(n))
-            rng.shuffle(perm)
-            out = [0] * n
-            for _ in range(rng.randint(1, 6)):
-                out[rng.randrange(n)] = rng.randrange(1, 5)
-            yield {'out': out, 'order': perm, 'only': rng.choice(['BaseException', 'Exception', 'B']),
-                   'kinds': [rng.choice(KINDS[:3]) for _ in range(n)], 'big': True}
+            if j % every == 0:
+                # many awaitables at once, on two event loops one after the other in the same process (interleaved with
+                # the sampled cases so that a time-truncated run covers both)
+                n = rng.choice([65, 70, 100, 130, 200])
+                perm = list(range(n))
+                rng.shuffle(perm)
+                out = [0] * n
+                for _ in range(rng.randint(1, 6)):
+                    out[rng.randrange(n)] = rng.randrange(1, 5)
+                yield {'out': out, 'order': perm, 'only': rng.choice(['BaseException', 'Exception', 'B']),
+                       'kinds': [rng.choice(KINDS[:3]) for _ in range(n)], 'big': True}
 
     def run_case(self, case):
         A = self.A
